@@ -243,6 +243,7 @@ PROPS["C20"] = {
 
 PROPS["C13"] = {
     "units": [
+        plain("regress", "rtpconn", "TestVerif_C13_Regress_.*"),
         plain("shutdown-kicks", "rtpconn", "TestVerif_C13_ShutdownKicksEveryone", timeout={"quick": 120, "thorough": 120}),
         rapid("action-queue", "unbounded", "TestVerif_C13_ActionQueue", 400, 3000, race=True, shards=8),
         rapid("coordinated-schedules", "rtpconn", "TestVerif_C13_CoordinatedSchedules", 60, 400, shards=8, timeout={"quick": 900, "thorough": 3600}),
